@@ -41,6 +41,32 @@ CLAIMED = {
    text="16 kernel-checked theorems (Props/C09.lean) relating the path-based model of ResolvedPos and the traversal functions to the flat UTF-16 token sequence for unbounded documents; every accessor of the real code is compared with the model at every pair-aligned position of generated documents (astral text, non-inclusive marks) and with quantities recomputed from to_json() tokens.",
    note="Trusted: Lean kernel, model lean/PM/Resolve.lean tied by sampling, harness. block_range/NodeRange, marks_across, child_after/before and range_has_mark are tied by exact correspondence/oracle only (no theorem yet). nodeAt_spec carries the guard 'node size ≠ 0' (empty text nodes do not exist in the library).",
    design="§5 C09"),
+
+ "C03": dict(
+   technique="Lean 4 theorems: for replace and replace-around steps the size delta is the map's delta and every old token outside the replaced ranges is found at the mapped position; markup steps have the empty map and keep structure/text; Transform.mapping = maps of recorded steps; built on kernel-checked token semantics of every step kind (Proofs/StepToks.lean) + exact correspondence of get_map/apply + per-token oracle over every step emitted by every Transform operation",
+   text="5 kernel-checked theorems (Props/C03.lean) on top of the token-level semantics of all eight step kinds (13 theorems, Proofs/StepToks.lean) for unbounded documents; get_map of every step kind and Transform.mapping are compared exactly with the model; the oracle checks size delta and token preservation at all old positions for random primitive steps and for every step emitted by random high-level operations.",
+   note="Trusted: Lean kernel, model lean/PM/{Step,Map,Replace,Transform}.lean tied by sampling, harness. Guard of replaceAround_map_faithful: not (empty gap at the end of the range with slice content after it) — the excluded shape is a real violation of the statement on the code (touching map ranges), recorded as open known finding C03-touching-empty-gap; no library operation emits it.",
+   design="§5 C03"),
+ "C05": dict(
+   technique="Lean 4 round-trip theorems fromJson(toJson x) = x for marks, nodes (any depth), fragments, slices and the eight step kinds, attribute defaulting, registry; exact differential correspondence of to_json/from_json through real json.dumps/loads; round-trip + effect + aliasing oracle",
+   text="10 kernel-checked theorems (Props/C05.lean) over a model of the JSON forms (PM/Json.lean) for unbounded documents; the real to_json output (after json.dumps/loads) is compared with the model's and from_json results are compared both ways on generated documents, slices, marks and steps; the oracle checks equality, identical re-serialisation, identical effect and map of decoded steps, registry contents and (by mutation) that produced JSON does not alias live objects.",
+   note="Trusted: Lean kernel, model tied by sampling, harness; Python's json/str encoding is modelled as the identity on JSON data. 'Does not alias live attribute objects' is object identity, outside a pure model: decided by the mutation probe only (stated in evidence).",
+   design="§5 C05"),
+ "C06": dict(
+   technique="verified certificate checker: Lean 4 theorems equivCheck_accepts / equivCheck_live (bisimulation up to Antimirov partial derivatives; semantics = Mathlib RegularExpression.matches') + translator regenerating lean/Gen/DfaCerts.lean from the automata the running code compiles (one `decide +kernel` instance per bundled-family expression) + evaluation of the checker on enumerated/random expressions + accept/reject tie for malformed expressions + independent Python-regex oracle on child sequences",
+   text="Automaton equivalence for sequences of unbounded length is decided by a kernel-checked theorem about a Bool checker; for every content expression of the bundled-family schemas the instance is re-proved by the kernel on every run against the ContentMatch graph the current code builds (50 instances); for enumerated (syntax-tree depth bound) and random expressions the same checker is evaluated by the compiled driver; well-formedness (syntax, unknown names, inline/block mixing, dead ends) is compared with the model's reading of the grammar.",
+   note="Trusted: Lean kernel (+ Mathlib's RegularExpression definitions, which are what 'the expression read as a regular expression' means here), the 60-line grammar reader specParse (it *is* the specification; its evaluation by the driver is not kernel-checked), the certificate search is untrusted, the harness dump of ContentMatch graphs. For non-bundled expressions the checker's verdict is computed by compiled Lean code, not the kernel.",
+   design="§5 C06"),
+ "C13": dict(
+   technique="Lean 4 theorems: per-token effect of add-mark / remove-mark steps (documented add rule C14.addSpec under parent permission, structure/text unchanged, nothing outside the range changes), node-level steps change only the addressed token, retyping replace-around keeps the children; relational tie of the Transform planners (every emitted step applied by the model) + per-token oracle on final documents",
+   text="7 kernel-checked theorems (Props/C13.lean) from the token semantics of the mark steps for arbitrary exclusion relations and unbounded documents; Transform.add_mark/remove_mark/add_node_mark/remove_node_mark/set_node_attribute/set_block_type/set_node_markup are run on generated inputs, each emitted step is re-applied by the model (same document) and the final document is checked token by token against the documented effect.",
+   note="Trusted: Lean kernel, model tied by sampling, harness. The range-coalescing planners themselves (which steps add_mark/remove_mark emit) are not modelled: their effect is decided by the oracle; inline non-atom nodes are skipped by AddMarkStep by design and are not pinned.",
+   design="§5 C13"),
+ "C17": dict(
+   technique="Lean 4 theorems: rebasing a replace step over a separated replace step's map never drops it and shifts it exactly; both orders yield the same token sequence and (normal form) the same document; positions outside a range are never flagged deleted; relational tie of Step.map (model's rebased step applied by the real code) + convergence oracle over pairs from all high-level operations",
+   text="4 kernel-checked theorems (Props/C17.lean) for pairs of replace steps with arbitrary slices on unbounded documents; for pairs of steps of every kind produced by random high-level operations on a common base document with separated ranges, the real code's rebased steps and the model's are compared by effect and the full convergence check (not dropped, both orders succeed, equal documents) runs on the real code.",
+   note="Trusted: Lean kernel, model tied by sampling, harness. Theorems cover replace/replace pairs; pairs involving replace-around and markup steps are decided by correspondence + search only. 'Both orders succeed' is conditional in the theorems (decided by search).",
+   design="§5 C17"),
 }
 
 NOT_YET = {
